@@ -27,6 +27,7 @@ CHECKS = {
     'C14': 'harness.c14',
     'C16': 'harness.c16',
     'C17': 'harness.c17',
+    'C18': 'harness.c18',
     'C19': 'harness.c19',
     'C20': 'harness.c20',
 }
